@@ -61,9 +61,11 @@ Section Rename.
     destruct (get (f_heap s) oc) as [[ch m|dt k id m|lk m]|] eqn:Ego.
     4:{ exfalso. apply get_some in Hoc_lt as (x & Hx). congruence. }
     1:{ (* a directory is moved *)
-      destruct (is_not_exist (sr_err rn)) eqn:Ene; cbn [negb]; [|stay].
+      match goal with |- context [if ?b then (if ?b2 then (s, ROk) else _) else _] =>
+        destruct b; [destruct b2; stay|] end.
       destruct (Nat.eqb_spec oc op) as [->|Hne]; cbn [orb]; [stay|].
       destruct (is_prefix (pi_path (sr_pi ro) ++ [SLASH]) (pi_path (sr_pi rn))) eqn:Epre; [stay|].
+      destruct (is_not_exist (sr_err rn)) eqn:Ene; cbn [negb]; [|stay].
       destruct Holk as [->|Holk]; [congruence|].
       destruct (search_post_not_exist _ _ HPn Ene) as (np' & Hn1 & _ & Hnc & Hnlk).
       assert (np' = np) by congruence. subst np'.
@@ -71,7 +73,7 @@ Section Rename.
       cbn [fst]. apply step_ok_with_heap.
       apply (Inv_heap_move (f_heap s) op (pi_part (sr_pi ro)) oc np (pi_part (sr_pi rn)) None); auto.
       - discriminate.
-      - eapply (rename_guard ro rn op oc np); eauto. now apply is_file_exists_eq. }
+      - exact (rename_guard ro rn op oc np HTo HTn Hop1 Hoc Hne (is_file_exists_eq _ Eo) Holk Hnp1 Hnc Ene E2 Hnp2 Epre). }
     (* a file or a symbolic link is moved *)
     all: assert (Hleaf : children (f_heap s) oc = []) by (rewrite children_get, Ego; reflexivity).
     all: assert (Hnd : node_is_dir (f_heap s) oc = false) by (rewrite node_is_dir_get, Ego; reflexivity).
